@@ -129,12 +129,11 @@ func normalizeDocument(schema *Schema, doc *ast.Document, operationName string) 
 func fingerprintDocument(doc *ast.Document, op *ast.OperationDefinition, operationName string) string {
 	h := fnv.New64a()
 	w := fingerprintWriter{h: h, fragments: collectFragmentDefs(doc)}
-	w.writeString("OP:")
+	w.writeString("OP")
 	w.writeString(string(op.Operation))
-	w.writeByte(0)
 	w.writeString(operationName)
-	w.writeByte(0)
 	w.writeVariableDefs(op.VariableDefinitions)
+	w.writeDirectives(op.Directives)
 	w.writeSelectionSet(op.SelectionSet)
 	return strconv.FormatUint(h.Sum64(), 16)
 }
@@ -160,11 +159,18 @@ type fingerprintWriter struct {
 	visited   map[string]bool
 }
 
-func (w *fingerprintWriter) writeString(s string) { _, _ = w.h.Write([]byte(s)) }
+// writeString feeds a name or literal text. It is length-prefixed so that
+// text containing the structural bytes written around it (',', ')', ']',
+// 'V', ...) cannot make two different documents hash the same byte stream.
+func (w *fingerprintWriter) writeString(s string) {
+	_, _ = w.h.Write([]byte(strconv.Itoa(len(s))))
+	_, _ = w.h.Write([]byte{':'})
+	_, _ = w.h.Write([]byte(s))
+}
 func (w *fingerprintWriter) writeByte(b byte)     { _, _ = w.h.Write([]byte{b}) }
 
 func (w *fingerprintWriter) writeVariableDefs(defs []*ast.VariableDefinition) {
-	w.writeString("VD(")
+	w.writeByte('(')
 	for _, d := range defs {
 		if d == nil || d.Variable == nil || d.Variable.Name == nil {
 			continue
@@ -172,6 +178,11 @@ func (w *fingerprintWriter) writeVariableDefs(defs []*ast.VariableDefinition) {
 		w.writeString(d.Variable.Name.Value)
 		w.writeByte(':')
 		w.writeType(d.Type)
+		if d.DefaultValue != nil {
+			// the default decides the response when the variable is absent
+			w.writeByte('=')
+			w.writeValue(d.DefaultValue)
+		}
 		w.writeByte(',')
 	}
 	w.writeByte(')')
@@ -190,6 +201,29 @@ func (w *fingerprintWriter) writeType(t ast.Type) {
 		if tt != nil && tt.Name != nil {
 			w.writeString(tt.Name.Value)
 		}
+	}
+}
+
+// writeDirectives feeds the directives applied to a node: @skip / @include
+// (and their conditions) decide what is executed.
+func (w *fingerprintWriter) writeDirectives(directives []*ast.Directive) {
+	for _, d := range directives {
+		if d == nil || d.Name == nil {
+			continue
+		}
+		w.writeByte('@')
+		w.writeString(d.Name.Value)
+		w.writeByte('(')
+		for _, a := range d.Arguments {
+			if a == nil || a.Name == nil {
+				continue
+			}
+			w.writeString(a.Name.Value)
+			w.writeByte('=')
+			w.writeValue(a.Value)
+			w.writeByte(',')
+		}
+		w.writeByte(')')
 	}
 }
 
@@ -221,19 +255,22 @@ func (w *fingerprintWriter) writeSelectionSet(sel *ast.SelectionSet) {
 				}
 				w.writeByte(')')
 			}
+			w.writeDirectives(s.Directives)
 			w.writeSelectionSet(s.SelectionSet)
 			w.writeByte(';')
 		case *ast.InlineFragment:
-			w.writeString("...")
+			w.writeByte('I')
 			if s.TypeCondition != nil && s.TypeCondition.Name != nil {
 				w.writeString(s.TypeCondition.Name.Value)
 			}
+			w.writeDirectives(s.Directives)
 			w.writeSelectionSet(s.SelectionSet)
 			w.writeByte(';')
 		case *ast.FragmentSpread:
-			w.writeString("...")
+			w.writeByte('S')
 			if s.Name != nil {
 				w.writeString(s.Name.Value)
+				w.writeDirectives(s.Directives)
 				w.writeByte(';')
 				w.writeFragmentBody(s.Name.Value)
 			}
@@ -258,6 +295,7 @@ func (w *fingerprintWriter) writeFragmentBody(name string) {
 	if frag.TypeCondition != nil && frag.TypeCondition.Name != nil {
 		w.writeString(frag.TypeCondition.Name.Value)
 	}
+	w.writeDirectives(frag.Directives)
 	w.writeSelectionSet(frag.SelectionSet)
 }
 
